@@ -641,8 +641,146 @@ class Repair(Suite):
     def nontrivial(self, case, res):
         return sum(1 for p in case["pids"] if p == -1) >= 2
 
+class Reread(Suite):
+    """the SAME multi-root file, on disk or in memory, asked several times in a row with different options (repair mode x
+    reset_index x sort_nodes) through every way of naming it (str path, path relative to the current directory, pathlib.Path,
+    open handle, StringIO): every single answer is judged as if it were the only one — the property is stated per reading, so
+    nothing of an earlier call (a repair, a renumbering) may show in a later one"""
+    name = "c18.reread"
+    INPUTS = ["str", "str", "Path", "relative", "handle", "stringio"]
 
-SUITES = [DsuScripts(), Checkers(), Repair()]
+    def cases(self, rng, tier, widen):
+        big = tier == "thorough" or widen
+        forests = [c for c in Repair().cases(rng, "quick", False) if sum(1 for p in c["pids"] if p == -1) >= 2]
+        out = []
+        for k, f in enumerate(forests[:(90 if big else 36)]):
+            opt = lambda: {"mode": rng.choice([False, False, "somas", "nearest"]), "reset": rng.random() < 0.5, "sort": rng.random() < 0.15}
+            calls = [opt() for _ in range(rng.choice([2, 2, 3, 4]))]
+            if k % 4 == 3:
+                calls = [dict(calls[0]) for _ in calls]                     # the same question again and again
+            elif all(c == calls[0] for c in calls):
+                calls[-1]["mode"] = "somas" if calls[0]["mode"] is False else False
+            if k % 4 == 0:                                                   # guaranteed: a repairing read first, a plain read later
+                calls[0]["mode"] = rng.choice(["somas", "nearest"]); calls[-1]["mode"] = False; calls[-1]["sort"] = False
+            c = dict(f)
+            c["input"] = self.INPUTS[k % len(self.INPUTS)] if k < 12 else rng.choice(self.INPUTS)
+            c["calls"] = calls
+            c["rewrite"] = rng.random() < 0.2       # the file is written again (same text) between the calls
+            kind = "same-options" if all(x == calls[0] for x in calls) else "mixed-options"
+            c["class"] = f"{c['input']}/{kind}/{len(calls)}calls" + ("/rewritten" if c["rewrite"] else "")
+            out.append(c)
+        return out
+
+    def run(self, case):
+        import os
+        import pathlib
+        import shutil
+        import tempfile
+
+        from swcgeom.core.swc_utils import is_single_root, read_swc
+
+        n = len(case["ids"])
+        text = "# fragments\n" + "".join(
+            f"{case['ids'][k]} {case['types'][k]} {case['xyz'][k][0]} {case['xyz'][k][1]} {case['xyz'][k][2]} {case['r'][k]!r} {case['pids'][k]}\n" for k in range(n))
+        tmp = os.path.realpath(tempfile.mkdtemp(prefix="c18_"))
+        fn = os.path.join(tmp, "forest.swc")
+        cwd = os.getcwd()
+        res = {"calls": []}
+        try:
+            with open(fn, "w", encoding="utf-8") as f:
+                f.write(text)
+            os.chdir(tmp)
+            for k, c in enumerate(case["calls"]):
+                if k and case.get("rewrite"):
+                    with open(fn, "w", encoding="utf-8") as f:
+                        f.write(text)
+                fh = None
+                src = {"str": fn, "Path": pathlib.Path(fn), "relative": "forest.swc", "stringio": None, "handle": None}[case["input"]]
+                if case["input"] == "stringio":
+                    src = io.StringIO(text)
+                elif case["input"] == "handle":
+                    src = fh = open(fn, "r", encoding="utf-8")
+                with warnings.catch_warnings(record=True) as w:
+                    warnings.simplefilter("always")
+                    try:
+                        df, _ = read_swc(src, fix_roots=c["mode"], reset_index=c["reset"], sort_nodes=c["sort"])
+                        r = {col: df[col].tolist() for col in ("id", "pid", "type", "x", "y", "z", "r")}
+                        r["warn"] = [str(x.message)[:40] for x in w]
+                        r["single"] = bool(is_single_root(df))
+                        res["calls"].append(r)
+                    except Exception as e:  # noqa: BLE001
+                        res["calls"].append({"exc": type(e).__name__, "msg": str(e)[:200]})
+                    finally:
+                        if fh is not None:
+                            fh.close()
+        finally:
+            os.chdir(cwd)
+            shutil.rmtree(tmp, ignore_errors=True)
+        return res
+
+    def oracle(self, case, res):
+        if not isinstance(res, dict) or "exc" in res or not isinstance(res.get("calls"), list) or len(res["calls"]) != len(case["calls"]):
+            return [("reread-raises", f"{res.get('exc')}: {res.get('msg')}" if isinstance(res, dict) else repr(res)[:200])]
+        ids, pids = case["ids"], case["pids"]
+        n = len(ids)
+        nroots = sum(1 for p in pids if p == -1)
+        first_root = next(k for k, p in enumerate(pids) if p == -1)
+        spell = lambda c: f"fix_roots={c['mode']!r}, reset_index={c['reset']}, sort_nodes={c['sort']}"
+        out = []
+        for k, (c, r) in enumerate(zip(case["calls"], res["calls"])):
+            mode = str(c["mode"])
+            what = f"read #{k + 1} of the same {case['input']} input ({spell(c)}) after [{'; '.join(spell(x) for x in case['calls'][:k])}]"
+            if isinstance(r, dict) and "exc" in r and c["sort"] and mode == "False":
+                continue            # sort_nodes_ demands a single root (its own precondition, outside this property): kept as history only
+            if not isinstance(r, dict) or "exc" in r:
+                out.append((f"reread-raises/{mode}", f"{what} raised {r.get('exc') if isinstance(r, dict) else r}: {r.get('msg') if isinstance(r, dict) else ''}"))
+                continue
+            try:
+                rid, rp = [int(v) for v in r["id"]], [int(v) for v in r["pid"]]
+                cols = {col: [float(v) for v in r[col]] for col in ("type", "x", "y", "z", "r")}
+                ok = len(rid) == len(rp) == n and all(len(v) == n for v in cols.values())
+            except (KeyError, TypeError, ValueError):
+                ok = False
+            if not ok:
+                out.append((f"reread-nodes/{mode}", f"{what}: not the {n} nodes of the file")); continue
+            roots = [j for j, p in enumerate(rp) if p == -1]
+            if mode == "False" and nroots > 1 and not any("not a simple tree" in x for x in r.get("warn") or []):
+                out.append(("reread-no-warning", f"{what}: the file has {nroots} roots but there is no warning"))
+            if len(roots) != (nroots if mode == "False" else 1):
+                out.append((f"reread-roots/{mode}", f"{what}: the file has {nroots} roots, the table returned has roots at rows {roots}"))
+            pos = {v: j for j, v in enumerate(rid)}
+            if len(pos) == n and all(p == -1 or p in pos for p in rp):
+                _, nc = components(n, [-1 if p == -1 else pos[p] for p in rp])
+                if r.get("single") != (nc == 1):
+                    out.append((f"reread-is-single-root/{mode}", f"{what}: is_single_root says {r.get('single')} on a table with {nc} component(s)"))
+            if c["sort"]:
+                continue            # renumbered by the sorter: rows are compared by the other suites
+            shift = ids[first_root] if c["reset"] else 0
+            if rid != [v - shift for v in ids]:
+                out.append((f"reread-ids/{mode}", f"{what}: ids {rid[:8]}, the file has {ids[:8]} (shift {shift})")); continue
+            want = {"type": case["types"], "x": [p[0] for p in case["xyz"]], "y": [p[1] for p in case["xyz"]], "z": [p[2] for p in case["xyz"]], "r": case["r"]}
+            for col, v in want.items():
+                if cols[col] != [float(x) for x in v]:
+                    out.append((f"reread-attrs/{mode}", f"{what}: column {col} differs from the file")); break
+            wp = [-1 if p == -1 else p - shift for p in pids]
+            if mode == "False":
+                if rp != wp:
+                    out.append(("reread-changes-parents", f"{what}: parents {rp} but the file says {wp}"))
+                continue
+            if roots != [first_root]:
+                continue
+            if any(wp[j] != -1 and rp[j] != wp[j] for j in range(n)):
+                out.append((f"reread-edges/{mode}", f"{what}: an original edge was lost: {wp} -> {rp}")); continue
+            pp = [-1 if p == -1 else pos.get(p, -2) for p in rp]
+            if -2 in pp or components(n, pp)[1] != 1 or has_cycle(n, pp):
+                out.append((f"reread-not-a-tree/{mode}", f"{what}: result is not one tree: {rp}"))
+        return out[:3]
+
+    def nontrivial(self, case, res):
+        return len(case["calls"]) >= 2
+
+
+SUITES = [DsuScripts(), Checkers(), Repair(), Reread()]
 TECHNIQUE = ("Lean 4 theorems: the union-find model (path compression + union by rank) answers same-set queries exactly as the equivalence closure of the "
              "unions performed so far, for every operation history (invariant: ranks strictly increase along parent pointers; find preserves every root); "
              "has_cyclic / is_bifurcate / is_sorted / pointer-jumping / root-repair models characterised + differential correspondence on union/find scripts, "
